@@ -690,6 +690,13 @@ func runL(l *live, pre string, r *hx.Rng, variant string) (string, string, error
 	for len(src) < 6 {
 		src = genSource(r, 1)
 	}
+	if variant == "standby" {
+		// the entries go on in ONE raft term: the stand-by holds a recorded remote position of that very term when the
+		// forwarding learner dies (its short-cut compares term AND index)
+		for j := range src {
+			src[j].t = src[0].t
+		}
+	}
 	px := &proxy{l: l, pre: pre, r: r, payload: map[string]uint64{}, src: map[int][]sent{1: src}, copied: map[string]bool{}}
 	px.faults = 12 // no random faults in these runs: the stall is the fault
 	for _, e := range src {
@@ -829,10 +836,20 @@ func runL(l *live, pre string, r *hx.Rng, variant string) (string, string, error
 			return "", "", err
 		}
 	}
-	// drain: until the receiver's position is the last entry's (a sender that skipped entries still gets there)
-	if !waitSynced(n, 30*time.Second) {
-		closeAll()
-		return "", "", errors.New("learners: drain timeout")
+	// drain: until the receiver's position is the last entry's.  If the only learner left has applied its whole raft log
+	// AND its send buffer is drained (its own GetSnapshot succeeds), nothing more will ever be sent: the run is
+	// conclusive even when the receiver is still behind, and the oracle judges what arrived.
+	if !waitSynced(n, 3*time.Second) {
+		active := l1
+		if variant == "standby" {
+			active = l2
+		}
+		if _, gerr := active.GetSnapshot(src[n-1].t, src[n-1].i); gerr == nil {
+			waitSynced(n, 2*time.Second)
+		} else if !waitSynced(n, 30*time.Second) {
+			closeAll()
+			return "", "", errors.New("learners: drain timeout")
+		}
 	}
 	time.Sleep(100 * time.Millisecond)
 	closeAll()
